@@ -608,6 +608,14 @@ func (ss *sessState) doStep(i int, st *plan.Step) (obs string) {
 			}
 			dst := reflect.New(ti.Type())
 			err := p.Get(src, dst.Interface())
+			if strings.Contains(p.PathString(), "..") {
+				// recursive descent through Go maps collects matches in Go's map
+				// iteration order, and a scalar destination receives "the first":
+				// the outcome is unspecified by construction, only "it returned"
+				// is observed
+				_ = err
+				return "path_get (recursive descent over Go maps: outcome depends on map iteration order, not compared)"
+			}
 			// Get walks Go maps: with several matches their order is Go's map
 			// order, i.e. unspecified; compare the members as a multiset
 			out := dst.Elem()
